@@ -5,7 +5,8 @@ open H2.Gen
 /-! ### `_reject_pseudo_header_fields` as three order/uniqueness rules -/
 
 def isPseudo (h : Header) : Bool := h.name.startsWith [58]
-def pseudoNames (hs : List Header) : List HStr := (hs.filter isPseudo).map (·.name)
+/-- the names of the pseudo-header fields of a block, as bytes (a text name and a bytes name are the same field) -/
+def pseudoNames (hs : List Header) : List HStr := (hs.filter isPseudo).map (fun h => HStr.b h.name.bs)
 def allowedPseudo (n : HStr) : Bool := inSet n ALLOWED_PSEUDO_HEADER_FIELDS_b ALLOWED_PSEUDO_HEADER_FIELDS_s
 /-- the value of the last `:method` pseudo-header (what `_reject_pseudo_header_fields` remembers) -/
 def lastMethod (init : Option Bytes) (hs : List Header) : Option Bytes :=
@@ -21,7 +22,7 @@ structure PseudoShape (hs : List Header) : Prop where
   unique : (pseudoNames hs).Nodup
 
 theorem pseudoNames_cons_pseudo (h : Header) (t : List Header) (hp : isPseudo h = true) :
-    pseudoNames (h :: t) = h.name :: pseudoNames t := by
+    pseudoNames (h :: t) = HStr.b h.name.bs :: pseudoNames t := by
   simp [pseudoNames, List.filter_cons, hp]
 theorem pseudoNames_cons_regular (h : Header) (t : List Header) (hp : isPseudo h = false) :
     pseudoNames (h :: t) = pseudoNames t := by
@@ -51,7 +52,7 @@ theorem foldlM_pseudoStep (hs : List Header) (st st' : PseudoSt) :
     rw [List.foldlM_cons]
     by_cases hp : isPseudo h = true
     · have hp' : h.name.startsWith [58] = true := hp
-      by_cases hseen : st.seen.contains h.name = true
+      by_cases hseen : st.seen.contains (HStr.b h.name.bs) = true
       · -- duplicate
         have key : pseudoStep st h = none := by simp only [pseudoStep, hp', if_true, hseen]
         rw [key]
@@ -59,7 +60,7 @@ theorem foldlM_pseudoStep (hs : List Header) (st st' : PseudoSt) :
         constructor
         · intro hh; cases hh
         · rintro ⟨_, _, _, hnot, _⟩
-          exact absurd (by simpa using hseen) (hnot h.name (by rw [pseudoNames_cons_pseudo h t hp]; exact List.mem_cons_self))
+          exact absurd (by simpa using hseen) (hnot (HStr.b h.name.bs) (by rw [pseudoNames_cons_pseudo h t hp]; exact List.mem_cons_self))
       · by_cases hreg : st.seenRegular = true
         · have key : pseudoStep st h = none := by
             simp only [pseudoStep, hp', if_true, hseen, hreg, Bool.false_eq_true, if_false]
@@ -73,7 +74,7 @@ theorem foldlM_pseudoStep (hs : List Header) (st st' : PseudoSt) :
         · by_cases hal : allowedPseudo h.name = true
           · have hal' : inSet h.name ALLOWED_PSEUDO_HEADER_FIELDS_b ALLOWED_PSEUDO_HEADER_FIELDS_s = true := hal
             have hregf : st.seenRegular = false := by simpa using hreg
-            have key : pseudoStep st h = some (PseudoSt.mk (st.seen ++ [h.name]) false
+            have key : pseudoStep st h = some (PseudoSt.mk (st.seen ++ [HStr.b h.name.bs]) false
                 (if h.name.isLit (strBytes ":method") then some h.value.toBytes else st.method)) := by
               simp only [pseudoStep, hp', if_true, hseen, hregf, hal', Bool.false_eq_true, if_false, Bool.not_true]
               split <;> simp [hregf]
@@ -84,7 +85,7 @@ theorem foldlM_pseudoStep (hs : List Header) (st st' : PseudoSt) :
               List.nodup_cons, List.mem_append, List.mem_singleton, not_or, Bool.false_eq_true, false_imp_iff, true_and,
               hregf, List.any_cons, hp, Bool.not_true, Bool.false_or, List.append_assoc, List.singleton_append, lastMethod,
               List.foldl_cons, Bool.true_and]
-            have hns : h.name ∉ st.seen := by simpa using hseen
+            have hns : HStr.b h.name.bs ∉ st.seen := by simpa using hseen
             constructor
             · rintro ⟨hk, hpw, hnot, hnd, heq⟩
               refine ⟨⟨fun _ => hal, hk⟩, ⟨fun _ _ _ => trivial, hpw⟩, ⟨hns, fun n hn => (hnot n hn).1⟩, ⟨?_, hnd⟩, heq⟩
@@ -144,7 +145,7 @@ theorem pseudoOk_iff (hs : List Header) (fl : HdrFlags) :
 def hasPseudo (hs : List Header) (lit : String) : Bool := hs.any fun h => isPseudo h && h.name.bs == strBytes lit
 
 theorem seenLit_pseudoNames (hs : List Header) (lit : String) : seenLit (pseudoNames hs) lit = hasPseudo hs lit := by
-  simp [seenLit, pseudoNames, hasPseudo, List.any_map, List.any_filter, Function.comp_def]
+  simp [seenLit, pseudoNames, hasPseudo, List.any_map, List.any_filter, Function.comp_def, HStr.b]
 
 theorem tables_as_literals :
     REQUEST_ONLY_HEADERS_b = [strBytes ":authority", strBytes ":method", strBytes ":path", strBytes ":protocol", strBytes ":scheme"] ∧
@@ -434,6 +435,199 @@ theorem validateInbound_iff (hs : List Header) (fl : HdrFlags) :
           · exact Or.inl (Or.inr rfl)
         · exact Or.inl (Or.inl rfl)
   unfold validateInbound
+  simp only
+  constructor
+  · rw [← key]
+    split
+    · rename_i h; simp [h]
+    · rename_i h; simp [h]
+  · intro hn
+    rw [← key] at hn
+    rw [if_neg hn]
+
+/-! ### outbound normalisation -/
+
+theorem head_dropWhile {α} (p : α → Bool) (l : List α) (c : α) (h : (l.dropWhile p).head? = some c) : p c = false := by
+  induction l with
+  | nil => simp at h
+  | cons a t ih =>
+    rw [List.dropWhile_cons] at h
+    split at h
+    · exact ih h
+    · rename_i hp
+      simp only [List.head?_cons, Option.some.injEq] at h
+      subst h; simpa using hp
+
+theorem getLast_dropWhile {α} (p : α → Bool) (l : List α) (c : α) (h : (l.dropWhile p).getLast? = some c) :
+    l.getLast? = some c := by
+  induction l with
+  | nil => simp at h
+  | cons a t ih =>
+    rw [List.dropWhile_cons] at h
+    split at h
+    · have := ih h
+      cases t with
+      | nil => simp at this
+      | cons b u => rw [List.getLast?_cons_cons]; exact this
+    · exact h
+
+theorem stripWith_edge (ws : UInt8 → Bool) (b : Bytes) :
+    (∀ c, (stripWith ws b).head? = some c → ws c = false) ∧ (∀ c, (stripWith ws b).getLast? = some c → ws c = false) := by
+  unfold stripWith
+  constructor
+  · intro c h
+    rw [List.head?_reverse] at h
+    have h2 := getLast_dropWhile ws _ c h
+    rw [List.getLast?_reverse] at h2
+    exact head_dropWhile ws b c h2
+  · intro c h
+    rw [List.getLast?_reverse] at h
+    exact head_dropWhile ws _ c h
+
+theorem mem_stripWith (ws : UInt8 → Bool) (b : Bytes) (c : UInt8) (h : c ∈ stripWith ws b) : c ∈ b := by
+  unfold stripWith at h
+  rw [List.mem_reverse] at h
+  have h1 := (List.dropWhile_sublist ws).subset h
+  rw [List.mem_reverse] at h1
+  exact (List.dropWhile_sublist ws).subset h1
+
+theorem asciiLower_not_upper (c : UInt8) : ¬ (65 ≤ asciiLowerByte c ∧ asciiLowerByte c ≤ 90) := by
+  unfold asciiLowerByte
+  split
+  · rename_i h
+    obtain ⟨h1, h2⟩ := h
+    intro ⟨h3, h4⟩
+    have e : (c + 32).toNat = (c.toNat + 32) % 256 := by simp [UInt8.toNat_add]
+    have a1 : 65 ≤ c.toNat := by simpa using UInt8.le_iff_toNat_le.mp h1
+    have a2 : c.toNat ≤ 90 := by simpa using UInt8.le_iff_toNat_le.mp h2
+    have a4 : (c + 32).toNat ≤ 90 := by simpa using UInt8.le_iff_toNat_le.mp h4
+    omega
+  · rename_i h; exact h
+
+theorem ws_of_WS (c : UInt8) (h : c ∈ WS) : isBytesWs c = true ∧ isStrWs c = true := by
+  have : isBytesWs c = true := by
+    simp only [WS, List.mem_cons, List.not_mem_nil, or_false] at h
+    unfold isBytesWs
+    rcases h with h | h | h | h | h | h <;> subst h <;> decide
+  exact ⟨this, by unfold isStrWs; simp [this]⟩
+
+theorem strip_edgeClean (h : HStr) : EdgeClean h.strip.bs := by
+  unfold HStr.strip EdgeClean
+  simp only
+  obtain ⟨e1, e2⟩ := stripWith_edge (if h.isStr then isStrWs else isBytesWs) h.bs
+  constructor
+  · intro c hc hw
+    have := e1 c hc
+    obtain ⟨w1, w2⟩ := ws_of_WS c hw
+    split at this <;> simp_all
+  · intro c hc hw
+    have := e2 c hc
+    obtain ⟨w1, w2⟩ := ws_of_WS c hw
+    split at this <;> simp_all
+
+/-- what `normalize_outbound_headers` guarantees for every field it lets through -/
+structure NormalisedField (h : Header) : Prop where
+  lowercase : ∀ c ∈ h.name.bs, ¬ (65 ≤ c ∧ c ≤ 90)
+  nameClean : EdgeClean h.name.bs
+  valueClean : EdgeClean h.value.bs
+  notConnectionSpecific : h.name.bs ∉ [strBytes "connection", strBytes "keep-alive", strBytes "proxy-connection",
+    strBytes "transfer-encoding", strBytes "upgrade"]
+  /-- authorization and proxy-authorization are never indexed -/
+  sensitive : h.name.bs ∈ [strBytes "authorization", strBytes "proxy-authorization"] → h.ni = true
+  /-- short cookies are never indexed -/
+  shortCookie : h.name.bs = strBytes "cookie" → h.value.bs.length < 20 → h.ni = true
+
+theorem secureHeader_name (h : Header) : (secureHeader h).name = h.name ∧ (secureHeader h).value = h.value := by
+  unfold secureHeader; split
+  · exact ⟨rfl, rfl⟩
+  · split <;> exact ⟨rfl, rfl⟩
+
+theorem secureHeader_marks (h : Header) :
+    (h.name.bs ∈ [strBytes "authorization", strBytes "proxy-authorization"] → (secureHeader h).ni = true) ∧
+    (h.name.bs = strBytes "cookie" → h.value.bs.length < 20 → (secureHeader h).ni = true) := by
+  obtain ⟨_, _, _, _, _, _, _, _, _, _, hs, hss, _⟩ := tables_as_literals
+  unfold secureHeader
+  rw [hss, inSet_same, hs]
+  constructor
+  · intro hm
+    have : ([strBytes "authorization", strBytes "proxy-authorization"].contains h.name.bs) = true := by
+      simpa [List.contains_eq_mem] using hm
+    rw [if_pos this]
+  · intro hc hl
+    split
+    · rfl
+    · have : (h.name.isLit (strBytes "cookie") && decide (h.value.bs.length < 20)) = true := by
+        simp [HStr.isLit, hc, hl]
+      rw [if_pos this]
+
+theorem normalizeOutbound_fields (hs : List Header) : ∀ h ∈ normalizeOutbound hs, NormalisedField h := by
+  intro h hh
+  unfold normalizeOutbound at hh
+  simp only [List.mem_map, List.mem_filter] at hh
+  obtain ⟨h1, ⟨⟨h2, ⟨h3, h3mem, h3eq⟩, h2eq⟩, hconn⟩, hsec⟩ := hh
+  subst hsec h2eq h3eq
+  obtain ⟨en, ev⟩ := secureHeader_name { name := (HStr.lower h3.name).strip, value := h3.value.strip, ni := h3.ni }
+  obtain ⟨m1, m2⟩ := secureHeader_marks { name := (HStr.lower h3.name).strip, value := h3.value.strip, ni := h3.ni }
+  have hc := (connOk_iff { name := (HStr.lower h3.name).strip, value := h3.value.strip, ni := h3.ni }).mp
+    (by unfold connOk; exact hconn)
+  refine ⟨?_, ?_, ?_, ?_, ?_, ?_⟩
+  · rw [en]; intro c hcm
+    have : c ∈ (HStr.lower h3.name).bs := mem_stripWith _ _ c hcm
+    unfold HStr.lower bytesLower at this
+    simp only [List.mem_map] at this
+    obtain ⟨d, _, hd⟩ := this
+    rw [← hd]; exact asciiLower_not_upper d
+  · rw [en]; exact strip_edgeClean _
+  · rw [ev]; exact strip_edgeClean _
+  · rw [en]; exact hc
+  · rw [en]; exact m1
+  · rw [en, ev]; exact m2
+
+/-! ### outbound validation -/
+
+/-- what `validate_outbound_headers` checks (the rules normalisation cannot establish by itself) -/
+structure ConformantOut (hs : List Header) (fl : HdrFlags) : Prop where
+  te : ∀ h ∈ hs, h.name.bs = strBytes "te" → bytesLower h.value.bs = strBytes "trailers"
+  notConnectionSpecific : ∀ h ∈ hs, h.name.bs ∉ [strBytes "connection", strBytes "keep-alive", strBytes "proxy-connection",
+    strBytes "transfer-encoding", strBytes "upgrade"]
+  shape : PseudoShape hs
+  role : RoleOk hs fl
+  hostAuthority : fl.isResponse = false → fl.isTrailer = false → hostAuthorityOk hs = true
+  path : fl.isResponse = false → fl.isTrailer = false → ∀ h ∈ hs, h.name.bs = strBytes ":path" → h.value.bs ≠ []
+
+theorem validateOutbound_iff (hs : List Header) (fl : HdrFlags) :
+    (validateOutbound hs fl = .ok hs ↔ ConformantOut hs fl) ∧
+    (¬ ConformantOut hs fl → validateOutbound hs fl = .error protoErr) := by
+  have key : (hs.all teOk && hs.all connOk && pseudoOk hs fl && ((fl.isResponse || fl.isTrailer) || hostAuthorityOk hs)
+     && ((fl.isResponse || fl.isTrailer) || hs.all pathOk)) = true ↔ ConformantOut hs fl := by
+    simp only [Bool.and_eq_true, List.all_eq_true, teOk_iff, connOk_iff, pseudoOk_iff, pseudoAcceptable_iff, Bool.or_eq_true,
+      pathOk_iff]
+    constructor
+    · rintro ⟨⟨⟨⟨hte, hco⟩, hsh, hro⟩, hha⟩, hpa⟩
+      refine ⟨hte, hco, hsh, hro, ?_, ?_⟩
+      · intro h1 h2
+        rcases hha with (h | h) | h
+        · rw [h1] at h; cases h
+        · rw [h2] at h; cases h
+        · exact h
+      · intro h1 h2
+        rcases hpa with (h | h) | h
+        · rw [h1] at h; cases h
+        · rw [h2] at h; cases h
+        · exact h
+    · rintro ⟨hte, hco, hsh, hro, hha, hpa⟩
+      refine ⟨⟨⟨⟨hte, hco⟩, hsh, hro⟩, ?_⟩, ?_⟩
+      · cases h1 : fl.isResponse
+        · cases h2 : fl.isTrailer
+          · exact Or.inr (hha h1 h2)
+          · exact Or.inl (Or.inr rfl)
+        · exact Or.inl (Or.inl rfl)
+      · cases h1 : fl.isResponse
+        · cases h2 : fl.isTrailer
+          · exact Or.inr (hpa h1 h2)
+          · exact Or.inl (Or.inr rfl)
+        · exact Or.inl (Or.inl rfl)
+  unfold validateOutbound
   simp only
   constructor
   · rw [← key]
